@@ -48,6 +48,38 @@ def param_summaries(P):
     return rel, cap
 
 
+def alloc_wrappers(P, size):
+    """functions that only forward the result of dep:alloc(sizeof(seed)) to their caller (allocator wrappers)"""
+    out = set()
+    for f in P.defined.values():
+        if not f.d['ret_ty'].endswith('*'): continue
+        al = [i for i, t in P.calls(f) if t == ('dep', 'alloc')]
+        if len(al) != 1 or f.has_loop(): continue
+        A = al[0]
+        ok = const_of_(A.ops[0]) == size
+        for w in feasible_walks(P, f):
+            rv = w.ret_value()
+            if A in w.events:
+                if rv is None or w.derived_from(rv, A.id) != 0: ok = False
+                for i in w.events:
+                    if i is A or i.op in ('bitcast', 'ret'): continue
+                    if any(w.derived_from(v, A.id) is not None for v in i.ops): ok = False
+            else:
+                if rv is None or w.val(rv) != 0: ok = False
+        if ok: out.add(f.name)
+    return out
+
+
+def const_of_(v):
+    return v['v'] if v['k'] == 'c' else None
+
+
+def is_alloc_event(P, i, wrappers):
+    if i.op != 'call': return False
+    t = P.call_target(i)
+    return t == ('dep', 'alloc') or (t[0] == 'direct' and t[1] in wrappers)
+
+
 def ownership(ctx, rep, cfgs=None):
     for cfg in cfgs or ctx.configs('path'):
         P = ctx.prog(cfg)
@@ -56,6 +88,7 @@ def ownership(ctx, rep, cfgs=None):
         OK = status['POLYSEED_OK']; EMEM = status['POLYSEED_ERR_MEMORY']
         size = P.structs[DATA_STRUCT]['size']
         rel, cap = param_summaries(P)
+        wrappers = alloc_wrappers(P, size)
 
         # ---- who may allocate / release
         rep.rule('OWN-1', 'the only allocation is a call through dependency field alloc, the only release a call through '
@@ -108,7 +141,12 @@ def ownership(ctx, rep, cfgs=None):
                  'release, no output; non-NULL outcome -> exactly one of (a) store to the caller\'s output pointer and return '
                  'POLYSEED_OK or (b) release through the release function and return a non-OK status; the block pointer is '
                  'stored nowhere else and passed only to callees that neither release nor capture it')
-        ctors = sorted(set(f.name for f, _ in allocs))
+        ctors = sorted(set(f.name for f, _ in allocs) - wrappers)
+        for f in P.defined.values():
+            if f.name not in wrappers and any(is_alloc_event(P, i, wrappers) for i in f.all_insts()) and f.name not in ctors:
+                ctors.append(f.name)
+        ctors = sorted(ctors)
+        rep.info['allocator_wrappers'] = sorted(wrappers)
         npaths = 0
         for cn in ctors:
             f = P.defined[cn]
@@ -116,7 +154,7 @@ def ownership(ctx, rep, cfgs=None):
                 raise AnalysisBroken('constructor %s contains a loop at its own level: path enumeration not applicable' % cn)
             for w in feasible_walks(P, f):
                 npaths += 1
-                _typestate(P, f, w, rep, rel, cap, relfn, size, OK, EMEM)
+                _typestate(P, f, w, rep, rel, cap, relfn, size, OK, EMEM, wrappers)
         rep.instances(len(ctors), 4, 'allocating functions')
         if npaths < 2 * len(ctors):
             raise AnalysisBroken('fewer than two feasible paths per allocating function: path enumeration is vacuous')
@@ -124,9 +162,9 @@ def ownership(ctx, rep, cfgs=None):
         rep.info['constructors'] = ctors
 
 
-def _typestate(P, f, w, rep, rel, cap, relfn, size, OK, EMEM):
+def _typestate(P, f, w, rep, rel, cap, relfn, size, OK, EMEM, wrappers=()):
     evs = w.events
-    allocs = [i for i in evs if i.op == 'call' and P.call_target(i) == ('dep', 'alloc')]
+    allocs = [i for i in evs if is_alloc_event(P, i, wrappers)]
     pathdesc = {'function': f.name, 'blocks': w.path, 'trace': w.describe()}
     end = evs[-1]
     if len(allocs) > 1:
@@ -144,7 +182,7 @@ def _typestate(P, f, w, rep, rel, cap, relfn, size, OK, EMEM):
         rep.ok('%s path %s: no allocation, no release' % (f.name, w.path))
         return
     A = allocs[0]
-    if w.val(A.ops[0]) != size:
+    if P.call_target(A) == ('dep', 'alloc') and w.val(A.ops[0]) != size:
         rep.fail('allocation requests sizeof(polyseed_data)=%d bytes' % size, A.loc, f.name, detail=pathdesc)
         return
     state = 'maybe'; released = 0; transferred = 0
